@@ -13,6 +13,7 @@ PROP = {
              "byte-level mutations of valid documents. A case is non-trivial when the document contains the last segment of one of its "
              "exclusions at two or more different cursors; distinct = distinct canonical JSON of (document text(s), exclusion list)"),
     "assumptions": [
+        "unit TestHARGeneratorPluginOverlapped: two transactions of two diagnoses with different obfuscation settings overlap on the one plugin instance - the injected hasher stops transaction A at its 1st-4th hash computation (headers, URL and query come before the bodies), B runs completely, A goes on; each output is judged against its own exclusion lists",
         "keys of generated documents contain no '.', '[' or ']' (the cursor notation cannot express them) and are unique per object",
         "numbers are finite float64 values; nesting depth <= 64; no lone surrogate escapes (no canonical form exists for them)",
         "a hashed leaf is accepted if it is the md5 hex of any canonical spelling of the value: string bytes or quoted JSON string; "
@@ -28,6 +29,7 @@ PROP = {
         {"pkg": "c16", "test": "TestObfuscateJSONCursor", "quick": 20000, "thorough": 150000, "shards": 16},
         {"pkg": "c16", "test": "TestHARCollectorBodies", "quick": 5000, "thorough": 40000, "shards": 16},
         {"pkg": "c16", "test": "TestHARGeneratorPluginBodies", "quick": 8000, "thorough": 60000, "shards": 16},
+        {"pkg": "c16", "test": "TestHARGeneratorPluginOverlapped", "quick": 3000, "thorough": 60000, "shards": 8},
         {"pkg": "c16", "test": "TestSmallSpaceExhaustive", "kind": "plain"},
         {"pkg": "c16", "test": "TestObfuscateJSONBytes", "thorough": 300000, "shards": 16, "tiers": ["thorough"]},
         {"pkg": "c16", "test": "FuzzObfuscateJSON", "kind": "fuzz", "thorough": 60, "tiers": ["thorough"]},
